@@ -888,6 +888,18 @@ func isContainer(v Value) bool {
 	return false
 }
 
+// identity returns an address that identifies the list or map v (whose
+// reflection after following a pointer is r), if it has one.
+func identity(v Value, r reflect.Value) (uintptr, bool) {
+	if r.Kind() != reflect.Array {
+		return r.Pointer(), true
+	}
+	if p := reflect.ValueOf(v); p.Kind() == reflect.Ptr {
+		return p.Pointer(), true
+	}
+	return 0, false
+}
+
 // equalContainers reports whether two lists have equal elements in the same
 // order, or two maps equal values under the same keys.
 func equalContainers(left, right Value, seen map[comparison]bool) bool {
@@ -895,12 +907,15 @@ func equalContainers(left, right Value, seen map[comparison]bool) bool {
 	if (lv.Kind() == reflect.Map) != (rv.Kind() == reflect.Map) || lv.Len() != rv.Len() {
 		return false
 	}
-	if lv.Kind() != reflect.Array && rv.Kind() != reflect.Array {
-		c := comparison{lv.Pointer(), rv.Pointer(), lv.Len()}
-		if c.left == c.right || seen[c] {
-			return true // the same list or map, or a pair already under comparison
+	// (An array has an identity when it is reached through a pointer.)
+	if lp, lok := identity(left, lv); lok {
+		if rp, rok := identity(right, rv); rok {
+			c := comparison{lp, rp, lv.Len()}
+			if c.left == c.right || seen[c] {
+				return true // the same list or map, or a pair already under comparison
+			}
+			seen[c] = true
 		}
-		seen[c] = true
 	}
 	equal := true
 	if lv.Kind() == reflect.Map {
